@@ -25,7 +25,7 @@ ASSUMPTIONS = [
     "with link faults enabled the clauses are checked only while the ASH link has not failed",
 ]
 PROBES = ["type.unicast", "type.multicast", "type.broadcast", "type.other_defined", "type.undefined", "join.allowed", "join.denied", "join.left", "join.left_denied",
-          "payload.empty", "payload.max", "rssi.negative", "faulty_link", "xiaomi_prefix", "join.device_known", "reconnect_other_version", "callback_during_reload", "callback_during_energy_scan", "callback_during_permit", "callback_during_add_endpoint"]
+          "payload.empty", "payload.max", "rssi.negative", "faulty_link", "xiaomi_prefix", "join.device_known", "message_from_nwk_of_last_join_callback", "reconnect_other_version", "callback_during_reload", "callback_during_energy_scan", "callback_during_permit", "callback_during_add_endpoint"]
 
 VERSIONS = list(range(4, 15))
 UNICAST, MULTICAST, BROADCAST = 0, 2, 4
@@ -185,6 +185,7 @@ def run(scenario, params, tape, detail=False):
                     await incoming(app, mtype, aps, 200 + k, -40 - k, 0x4000 + k, k, 0xFF - k, (b"", b"\x01\x02", bytes(range(30)), b"\x7e\x11", b"z")[k])
                 await tcjoin(app, 0x1234, bytes([1, 2, 3, 4, 5, 6, 7, 8]), 0, 0, 0x0000)
                 await tcjoin(app, 0x1234, bytes([1, 2, 3, 4, 5, 6, 7, 8]), DEVICE_LEFT, 0, 0x0000)
+                await incoming(app, UNICAST, (0x0104, 0x0006, 1, 1, 0x0140, 0, 0x77), 180, -60, 0x1234, 0, 0xFF, b"late")
 
             await batch()
             for V2 in params["then"]:
@@ -232,6 +233,13 @@ def run(scenario, params, tape, detail=False):
                         if eui[5:] == bytes([0x8C, 0xCF, 0x04]):
                             probe("xiaomi_prefix")
                         await tcjoin(app, 0x1000 + status * 16 + decision, eui, status, decision, 0x2000 + decision)
+                        if eui[0] == 1:
+                            # ... and straight afterwards a message from that very short address (frames still in flight when a device leaves, a
+                            # device that talks right after joining, a denied device that tries anyway): one callback, one packet
+                            probe("message_from_nwk_of_last_join_callback")
+                            k = status + decision
+                            await incoming(app, (UNICAST, MULTICAST, BROADCAST)[k % 3], (0x0104, 0x0500 + k, 1, 1, 0x0140, 0x3300 + k, 0x40 + k), 90 + k, max(-128, -50 - k),
+                                           0x1000 + status * 16 + decision, 0, 0xFF, bytes([k, 7]))
                     # a device the application already knows (an earlier join, or loaded from its database): under the same short address and
                     # under another one - a (re)join callback is translated all the same
                     known = bytes([0x4B, status, decision, 9, 9, 9, 9, 9])
@@ -242,10 +250,12 @@ def run(scenario, params, tape, detail=False):
                     await tcjoin(app, nwk_known ^ 0x0F00, known, status, decision, 0x2200 + decision)
         else:
             n = 5 + tape.draw(40, "n")
+            pool = [0x2001, 0x2002, 0x2003]  # a few devices that join, leave and talk (identities recur across callbacks)
             for _ in range(n):
                 if tape.draw(4, "which") == 0:
                     eui = tape.rand_bytes(8, "eui")
-                    await tcjoin(app, tape.draw(0xFFF8, "nwk"), eui, (0, 1, 2, 3, 4, 5, 7, 6)[tape.draw(8, "st")], tape.draw(5, "dec"), tape.draw(0xFFF8, "parent"))
+                    nwk_j = pool[tape.draw(3, "poolj")] if tape.draw(2, "pool?") else tape.draw(0xFFF8, "nwk")
+                    await tcjoin(app, nwk_j, eui, (0, 1, 2, 3, 4, 5, 7, 6)[tape.draw(8, "st")], tape.draw(5, "dec"), tape.draw(0xFFF8, "parent"))
                 else:
                     mtype = (0, 0, 2, 4, 1, 3, 5, 6, 7, 200)[tape.draw(10, "mtype")]
                     L = (0, 1, 2, 10, 60, 82, 100, 127)[tape.draw(8, "len")]
@@ -267,7 +277,8 @@ def run(scenario, params, tape, detail=False):
                     rssi = tape.draw(256, "rssi") - 128
                     if rssi < 0:
                         probe("rssi.negative")
-                    await incoming(app, mtype, aps, tape.draw(256, "lqi"), rssi, tape.draw(0xFFF8, "sender"), tape.draw(256, "bind"), tape.draw(256, "aidx"), msg,
+                    sender_r = pool[tape.draw(3, "pools")] if tape.draw(2, "spool?") else tape.draw(0xFFF8, "sender")
+                    await incoming(app, mtype, aps, tape.draw(256, "lqi"), rssi, sender_r, tape.draw(256, "bind"), tape.draw(256, "aidx"), msg,
                                    tape.rand_bytes(8, "eui"))
 
     outcome, val = rig.run(main())
